@@ -51,6 +51,16 @@ func H_C13_digest() {
 		rseid = newCP
 		vCover("cp-fseid-changed")
 	}
+	if nf >= 1 && vBool("refused_modification_before_the_report") {
+		// the control plane tries to switch a FAR to plain forwarding (no NOCP), the
+		// datapath refuses: the rules - and with them whether reports are due - stay
+		e.dp.fixedCause = 64 // ie.CauseRequestRejected
+		u := vFARSpec{id: s.fars[0].farID, action: ActionForward, uplink: false, teid: 0x99, peer: [4]byte{198, 18, 0, 9}}
+		e.vSend(message.NewSessionModificationRequest(0, 0, seid, 8, 0, u.update()))
+		m, okm := e.vLastReply().(*message.SessionModificationResponse)
+		vAssert("refused-modification-is-answered-rejected", okm && vCauseOf(m.Cause) != ie.CauseRequestAccepted)
+		vCover("refused-modification")
+	}
 	e.pc.seqNum.seq = vU32("prev_seq") & 0xffffff
 	prevSeq := e.pc.seqNum.seq
 
